@@ -209,6 +209,8 @@ func (fr *Frame) execNext(x *ssa.Next) {
 	pos := c.load(fr.st, it.cursor, types.Typ[types.Int])
 	p := c.fresh("itcur", SInt)
 	c.assumeDef(eq(p, pos))
+	// the cursor cell is private to the iterator and written only here: 0 <= cursor <= n
+	fr.assumeHere(Term{fmt.Sprintf("(and (<= 0 %s) (<= %s %s))", p.S, p.S, it.n.S), SBool})
 	ok := app(SBool, "<", p, it.n)
 	ks := c.sortOf(it.mt.Key())
 	vs := c.sortOf(it.mt.Elem())
